@@ -41,6 +41,7 @@ CAT4 = {
     "tri_plus_leaf": [("a", "b"), ("b", "c"), ("a", "c"), ("c", "d")],
     "pair_pair": [("a", "b"), ("c", "d")],
     "three_way_sep": [("a", "b", "c"), ("a", "b", "d")],
+    "mid_first4": [("a", "b"), ("a", "c"), ("b", "d")],
 }
 CAT5 = {
     "chain5": [("a", "b"), ("b", "c"), ("c", "d"), ("d", "e")],
